@@ -100,7 +100,12 @@ From RTCP Require Import Proofs.Tactics Lib.GoSem Gen.Funcs Check.GoOpaque Proof
   Proofs.SourceEquiv Proofs.SrcConv Proofs.SourceCorollaries Proofs.SourceSR Proofs.SourceRR Proofs.SourceSdes Proofs.SourceByeApp
   Proofs.SourceFeedback1 Proofs.SourceFeedback2 Proofs.SourceCcfb Proofs.SourceTwccEnc Proofs.SourceTwccDec
   Proofs.SourcePacket Proofs.SourceCompound Proofs.SourceCompoundClosed Proofs.SourceTheorems.
-From RTCP Require Import Lib.Base Lib.GoSem Gen.Consts Gen.Funcs Model.Header Model.Reports Model.Sdes Model.ByeApp Model.Feedback Model.Twcc Model.Ccfb Model.Packet Proofs.SourceEquiv Proofs.SrcConv Proofs.SourceByeApp Proofs.SourceCcfb Proofs.SourceFeedback1 Proofs.SourceFeedback2 Proofs.SourceRR Proofs.SourceRemb Proofs.SourceSR Proofs.SourceSdes Proofs.SourceTwccEnc Proofs.SourceTwccDec Proofs.SourcePacket Proofs.SourceCompound Proofs.SourceCompoundClosed Proofs.SourceTheorems Proofs.SourceTheorems2.
+From Coq Require Import String.
+From RTCP Require Import Proofs.Tactics Lib.GoSem Lib.Reflect Gen.Layouts Gen.Funcs Model.Xr Proofs.GoSemFacts Proofs.SrcConv.
+From RTCP Require Import Proofs.Tactics Lib.GoSem Lib.Reflect Gen.Layouts Gen.Funcs Gen.FuncsXr Model.Header Model.Xr
+  Proofs.GoSemFacts Proofs.SrcConv Proofs.HeaderProofs Proofs.EncXr Proofs.SourceEquiv Proofs.SourceXr Check.GoOpaque Check.XrOracles.
+From RTCP Require Import Spec.Enc Spec.XrSpec Proofs.XrRead Proofs.Total3.
+From RTCP Require Import Lib.Base Lib.GoSem Gen.Consts Gen.Funcs Model.Header Model.Reports Model.Sdes Model.ByeApp Model.Feedback Model.Twcc Model.Ccfb Model.Packet Proofs.SourceEquiv Proofs.SrcConv Proofs.SourceByeApp Proofs.SourceCcfb Proofs.SourceFeedback1 Proofs.SourceFeedback2 Proofs.SourceRR Proofs.SourceRemb Proofs.SourceSR Proofs.SourceSdes Proofs.SourceTwccEnc Proofs.SourceTwccDec Proofs.SourcePacket Proofs.SourceCompound Proofs.SourceCompoundClosed Proofs.SourceTheorems Proofs.SourceTheorems2 Proofs.SourceXr Proofs.SourceXrCodec.
 Module C04_SourceByeApp.
 Import Proofs.SourceByeApp.
 Local Open Scope Z_scope.
@@ -423,4 +428,12 @@ Theorem C04_source_TransportLayerCC_Unmarshal : forall b,
 Proof. exact src_TransportLayerCC_Unmarshal. Qed.
 Print Assumptions C04_source_TransportLayerCC_Unmarshal.
 End C04_SourceTwccDec.
+Module C04_SourceXrCodec.
+Import Proofs.SourceXrCodec.
+Local Open Scope Z_scope.
+Theorem C04_source_ExtendedReport_Unmarshal : forall b,
+  X.ExtendedReport_Unmarshal m_read_uint32 m_read_XRHeader m_read_ReportBlock zero_xr b = res_map src_xr (XR_unmarshal b).
+Proof. exact src_ExtendedReport_Unmarshal. Qed.
+Print Assumptions C04_source_ExtendedReport_Unmarshal.
+End C04_SourceXrCodec.
 (* END source-translation *)
